@@ -1393,3 +1393,47 @@ def rule_mount_scope(ctx, facts, rule):
                   detail + ": a record of another trace that carries the same span id (copies of one local-span set pushed to several "
                   "parents) receives this collection's events / properties", extra="mount-scope")
 
+
+
+def rule_rawspan_copy_keeps_times(ctx, facts, rule):
+    """A copy of a recorded span is the same span: `<RawSpan as Clone>::clone` (hand-written or derived) hands every id and
+    time stamp of `self` over unchanged. In particular end_instant is copied, not reset to the "still open" sentinel
+    (a finished span that is cloned on its way to the collector would be closed again at the collection time)."""
+    from .core import inline_calls
+    RAW = "fastrace::local::raw_span::RawSpan"
+    path = "<%s as core::clone::Clone>::clone" % RAW
+    fn = facts.fn(path)
+    if fn is None:
+        # RawSpan is not Clone at all: nothing can copy a span
+        ctx.ok(rule, path, "-", "RawSpan has no Clone impl: a recorded span cannot be duplicated", "", extra="clone-times")
+        return
+    view = inline_calls(facts, fn, lambda g: g.crate == fn.crate and g.path.startswith(RAW + "::"), depth=2)
+    prov = Prov(facts)
+    aggs = [(b, s) for b, blk in enumerate(view.blocks) if not blk["cleanup"] for s in blk["stmts"]
+            if s["k"] == "assign" and s["rv"]["k"] == "agg" and s["rv"].get("adt") == RAW]
+    if not aggs:
+        ctx.fail(rule, path, fn.span, "RawSpan::clone builds a RawSpan", "anchor lost: no RawSpan aggregate in clone (or what it calls)",
+                 extra="clone-times")
+        return
+    bad = []
+    for fld in ("id", "parent_id", "begin_instant", "end_instant"):
+        srcs = set()
+        for b, s in aggs:
+            f = dict(zip(s["rv"]["fields"], s["rv"]["ops"]))
+            if fld in f:
+                srcs |= set(data_origins(prov.of_operand(view, f[fld])))
+        # later stores into that field of the value being returned
+        for b, blk in enumerate(view.blocks):
+            if blk["cleanup"]:
+                continue
+            for s in blk["stmts"]:
+                if s["k"] == "assign" and s["lhs"]["p"] and s["lhs"]["p"][-1] == "." + fld and RAW in view.locals[s["lhs"]["l"]]:
+                    srcs = set(data_origins(prov._of_rvalue(view, b, s["rv"], (), 0, set()))) | \
+                        {o for o in srcs if not (o.kind == "const" or o.kind == "agg")}
+        good = bool(srcs) and all(o.kind == "param" and o.key == 1 and tuple(q for q in o.path if q != "*")[-1:] == ("." + fld,) for o in srcs)
+        if not good:
+            bad.append("%s <- %s" % (fld, origin_strs(srcs, 3)))
+    ctx.check(not bad, rule, path, fn.span,
+              "a cloned RawSpan carries self's id, parent_id, begin_instant and end_instant unchanged",
+              "4 fields copied from self", "not copied from self: %s (a finished span whose copy has end_instant = ZERO is closed at the "
+              "collection time instead of its own end)" % "; ".join(bad), extra="clone-times")
